@@ -64,7 +64,7 @@ def props_of(m):
             ps |= {'C01', 'C02'}   # a plain write / delete failed
     if base.startswith('counts.'):
         ps.add('C15')
-    if base in ('check_filters', 'check_filter', 'filter_offload_diff'):
+    if base in ('check_filters', 'check_filter', 'filter_offload_diff', 'filter_false_negative'):
         ps.add('C10')
     if base.startswith('blob_bytes'):
         ps.add('C07')
@@ -187,7 +187,7 @@ class StoreEngine:
             h['seed'] = self.run.seed * 1000 + i
             out = os.path.join(self.run.work, 'replay%s-%d.out' % (tag, i))
             err = os.path.join(self.run.work, 'replay%s-%d.err' % (tag, i))
-            p = subprocess.Popen([os.path.join(BIN, 'replay'), '--cfg', json.dumps(h), '--nkeys', str(nkeys)] + self.only_arg(),
+            p = subprocess.Popen([os.path.join(BIN, 'replay'), '--cfg', json.dumps(h), '--nkeys', str(nkeys)] + self.only_arg() + getattr(self, 'extra_args', []),
                                  stdin=open(files[i].name), stdout=open(out, 'w'), stderr=open(err, 'w'))
             procs.append((p, out, h))
         mismatches = []
